@@ -112,6 +112,8 @@ pub enum Input {
     /// stage outputs of the first paragraph through the cfg-guarded hooks
     Stage { enc: Enc, dir: Dir, text: Vec<u32>, ds: Option<DsSpec> },
     U16 { units: Vec<u32>, ops: String },
+    /// the UTF-8 text source (`impl TextSource for str`, `Utf8IndexLenIter`)
+    S8 { text: Vec<u32> },
     Lvl { l: u8 },
     U8 { n: u8 },
     HasRtl { levels: Vec<u8> },
@@ -308,6 +310,7 @@ pub fn parse_line(line: &str) -> Option<(String, String, Input)> {
             ds: parse_ds(key(&f, "DS")),
         },
         "u16" => Input::U16 { units: parse_hexlist(key(&f, "U")), ops: key(&f, "OPS").to_string() },
+        "s8" => Input::S8 { text: parse_hexlist(key(&f, "T")) },
         "lvl" => Input::Lvl { l: key(&f, "l").parse().unwrap() },
         "u8" => Input::U8 { n: key(&f, "n").parse().unwrap() },
         "hasrtl" => Input::HasRtl { levels: parse_numlist(key(&f, "LV")) },
@@ -828,10 +831,53 @@ pub fn run(id: &str, mode: &str, input: &Input) -> String {
                         None => "-".to_string(),
                     });
                 }
+                // subrange over every pair of character boundaries: the characters of the sub-text
+                let mut bounds: Vec<usize> = t.indices_lengths().map(|(i, _)| i).collect();
+                bounds.push(t.len());
+                let mut sub = vec![];
+                if bounds.len() <= 9 {
+                    for (x, &a) in bounds.iter().enumerate() {
+                        for &b in &bounds[x..] {
+                            let st = t.subrange(a..b);
+                            sub.push(format!("{}-{}:{}:{}", a, b, TextSource::len(st), st.chars().map(|c| format!("{:X}", c as u32)).collect::<Vec<_>>().join(".")));
+                        }
+                    }
+                }
                 format!(
-                    "LEN={} CA={} CI={} IL={} CH={} CL={} IT={}",
-                    TextSource::len(t), ca.join(","), ci.join(","), il.join(","), ch.join(","), cl.join(","), outs.join(",")
+                    "LEN={} CA={} CI={} IL={} CH={} CL={} IT={} SUB={}",
+                    TextSource::len(t), ca.join(","), ci.join(","), il.join(","), ch.join(","), cl.join(","), outs.join(","), sub.join(",")
                 )
+            });
+            format!("{} => {}", q, or_panic(r))
+        }
+        Input::S8 { text } => {
+            let q = format!("{} s8 T={}", head, hexlist(text));
+            let s = to_string8(text);
+            let r = guard(|| {
+                let t: &str = s.as_str();
+                let n = TextSource::len(t);
+                let ca: Vec<String> = (0..=n + 1)
+                    .map(|i| match TextSource::char_at(t, i) {
+                        Some((c, l)) => format!("{:X}:{}", c as u32, l),
+                        None => "-".to_string(),
+                    })
+                    .collect();
+                let ci: Vec<String> = TextSource::char_indices(t).map(|(i, c)| format!("{}:{:X}", i, c as u32)).collect();
+                let il: Vec<String> = TextSource::indices_lengths(t).map(|(i, l)| format!("{}:{}", i, l)).collect();
+                let ch: Vec<String> = TextSource::chars(t).map(|c| format!("{:X}", c as u32)).collect();
+                let cl: Vec<String> = TextSource::chars(t).map(|c| <str as TextSource>::char_len(c).to_string()).collect();
+                let mut bounds: Vec<usize> = TextSource::indices_lengths(t).map(|(i, _)| i).collect();
+                bounds.push(n);
+                let mut sub = vec![];
+                if bounds.len() <= 9 {
+                    for (x, &a) in bounds.iter().enumerate() {
+                        for &b in &bounds[x..] {
+                            let st = TextSource::subrange(t, a..b);
+                            sub.push(format!("{}-{}:{}:{}", a, b, TextSource::len(st), TextSource::chars(st).map(|c| format!("{:X}", c as u32)).collect::<Vec<_>>().join(".")));
+                        }
+                    }
+                }
+                format!("LEN={} CA={} CI={} IL={} CH={} CL={} SUB={}", n, ca.join(","), ci.join(","), il.join(","), ch.join(","), cl.join(","), sub.join(","))
             });
             format!("{} => {}", q, or_panic(r))
         }
@@ -882,7 +928,9 @@ pub fn run(id: &str, mode: &str, input: &Input) -> String {
             let new = Level::new(*n).map(|x| x.number().to_string()).unwrap_or("E".into());
             let newx = Level::new_explicit(*n).map(|x| x.number().to_string()).unwrap_or("E".into());
             let from = guard(|| Level::from(*n).number().to_string());
-            format!("{} => NEW={} NEWX={} FROM={}", q, new, newx, or_panic(from))
+            // Level::vec is the checked bulk conversion: it must reject what Level::from rejects
+            let vec1 = guard(|| Level::vec(&[0, *n, 1]).iter().map(|l| l.number().to_string()).collect::<Vec<_>>().join(","));
+            format!("{} => NEW={} NEWX={} FROM={} VEC={}", q, new, newx, or_panic(from), or_panic(vec1))
         }
         Input::HasRtl { levels } => {
             let q = format!("{} hasrtl LV={}", head, numlist(levels));
@@ -1037,8 +1085,12 @@ pub fn run(id: &str, mode: &str, input: &Input) -> String {
                                         let s: String = v.0.iter().map(|&c| char::from_u32(c).unwrap()).collect();
                                         hexlist(&s.encode_utf16().map(|x| x as u32).collect::<Vec<_>>())
                                     });
-                                    a_parts.push(format!("rl={};runs={};ro={}", or_panic(rl16), or_panic(runs16), or_panic(ro16)));
-                                    b_parts.push(format!("rl={};runs={};ro={}", or_panic(rl8), or_panic(runs8), or_panic(ro8)));
+                                    // the per-character line levels as each API returns them: one entry per character of
+                                    // the WHOLE text (an unpaired surrogate is one character)
+                                    let rpc16 = l16.out.rpc.as_ref().map(|v| levels_str(v));
+                                    let rpc8 = l8.out.rpc.as_ref().map(|v| levels_str(v));
+                                    a_parts.push(format!("rl={};rpc={};runs={};ro={}", or_panic(rl16), or_panic(rpc16), or_panic(runs16), or_panic(ro16)));
+                                    b_parts.push(format!("rl={};rpc={};runs={};ro={}", or_panic(rl8), or_panic(rpc8), or_panic(runs8), or_panic(ro8)));
                                     if wf {
                                         a_parts.push(format!("x={}", or_panic(exact16)));
                                         b_parts.push(format!("x={}", or_panic(exact8)));
